@@ -99,7 +99,7 @@ pub fn expand(c: &FileCase) -> FileCase {
 /// than the pipeline's channels hold (130), through every source, both passes, two runtimes
 fn many_cases(bed: bool, quick: bool) -> Vec<FileCase> {
     let mut v = vec![];
-    let ns: &[u32] = if quick { &[6, 130] } else { &[6, 8, 101, 102, 130, 260] };
+    let ns: &[u32] = if quick { &[6, 130, 257] } else { &[6, 8, 101, 102, 130, 256, 257, 300] };
     for &n in ns {
         for src in [SrcKind::Iter, SrcKind::SerialText, SrcKind::ParallelFile] {
             for two_pass in [false, true] {
